@@ -113,7 +113,14 @@ def job_factory(res, n, gap_sign, use_csr, wall, coll):
     else: sv, xv = Fraction(0), Fraction(0)
     if coll: st.pc += [cr > 0, cr < g / 2]; cv = cr
     else: cv = Fraction(0)
-    sts = run_paths(ex, st, 'e_make', [n, fmax, Rb, frev, gap, int(use_csr), sv, xv, cv, R['empty']]); account(res, ex, mod, sts)
+    desc0 = 'factory n=%d gap%s0 csr=%s wall=%s collimator=%s' % (n, '>' if gap_sign > 0 else '<' if gap_sign < 0 else '=', use_csr, wall, coll)
+    try:
+        sts = run_paths(ex, st, 'e_make', [n, fmax, Rb, frev, gap, int(use_csr), sv, xv, cv, R['empty']]); account(res, ex, mod, sts)
+    except Unsupported as e:
+        if 'division by zero' not in str(e): raise
+        # "every sample finite": a model evaluated with a divisor that is exactly zero (e.g. a beam pipe of radius 0) yields inf/NaN samples
+        res.obs.append(Ob('%s: every division the factory executes has a non-zero divisor (every sample finite)' % desc0, 'violated', key='factory-finite', detail=str(e),
+                          cex={'replay': 'make-finite', 'n': n, 'gap_sign': gap_sign, 'use_csr': use_csr, 'wall': wall, 'coll': coll})); return
     selected = gap_sign != 0 and (use_csr or wall or coll)
     for sx in sts:
         obj = sx.retval
@@ -226,6 +233,12 @@ def job_add(res, n):
 
 def replayer(bld):
     def rp(path, c):
+        if c.get('replay') == 'make-finite':
+            g = 0.032
+            spec = {'n': c['n'], 'fmax': 1e12, 'R_bend': 5.559, 'frev': 2.7e6, 'gap': g * (1 if c['gap_sign'] > 0 else -1 if c['gap_sign'] < 0 else 0), 'use_csr': int(c['use_csr']), 's': 3.5e7 if c['wall'] else 0.0, 'xi': 0.0, 'coll': 0.004 if c['coll'] else 0.0}
+            o = native_run(bld, spec, 'c16'); mk = o.get('make') or []
+            bad = [v for v in mk if v != v or v in (float('inf'), float('-inf'))]
+            return (bool(bad), 'native factory result has %d non-finite values among %d' % (len(bad), len(mk)))
         if c.get('replay') == 'pp-shape':
             spec = {'n': c['n'], 'fmax': 1e12, 'R_bend': 5.559, 'frev': 2.7e6, 'gap': c['g'], 'use_csr': 1, 's': 0.0, 'xi': 0.0, 'coll': 0.0, 'pp_direct': 1}
             if c.get('first_n'): spec['first_n'] = c['first_n']
